@@ -79,11 +79,13 @@ def plan(tier, k):
 
     # suffix: every set of up to n suffix rules over {a,b,.} up to 3 characters (empty labels, leading/trailing/double
     # dots, rules that are suffixes or extensions of one another), reached by every insertion order; one CASE per set
-    # (quick: the 15 strings over {a,.} and 8 with b; thorough: all 40 strings, 4 rules)
+    # (quick: the 15 strings over {a,.} and 8 with b, 3 rules; thorough: all 40 strings with 3 rules, and the 23 with 4)
     small = 'StrsUpTo({"a", "."}, 3) \\cup {"b", "ab", "ba", "a.b", "b.a", ".b", "b.", "b.b"}'
-    add("dom_suffix", "MCDomainSet", 12 if big else 8,
-        dict(dom, SuffixRules="StrsUpTo(%s, 3)" % CHARS if big else small, MaxRules=4 if big else 3, CASE="CaseOut"),
+    add("dom_suffix", "MCDomainSet", 10 if big else 8,
+        dict(dom, SuffixRules="StrsUpTo(%s, 3)" % CHARS if big else small, MaxRules=3, CASE="CaseOut"),
         probes=strs_upto("ab.", 4))
+    if big:
+        add("dom_suffix4", "MCDomainSet", 10, dict(dom, SuffixRules=small, MaxRules=4, CASE="CaseOut"), probes=strs_upto("ab.", 4))
     # mixed: all four kinds together, Clear, gob and text round trips as actions; replayed step by step
     add("dom_mixed", "MCDomainSet", 2,
         dict(dom, DomainRules=S(["a", "a.b", "b."]) if big else S(["a", "a.b"]), SuffixRules=S(["b", "a.b", ""]),
@@ -145,18 +147,35 @@ def plan(tier, k):
     # masking, /0 and full length), two families
     add("prefix", "MCPrefixSet", 2,
         dict(W=3, Fams=S(["4", "6"]), MaxPrefixes=3, EMIT="", CASE="CaseOut",
-             Lines=('[fam : {"4"}, a : 0..7, len : 0..3] \\cup [fam : {"6"}, a : 0..7, len : 0..3]' if big else
+             Lines=('[fam : {"4"}, a : 0..7, len : 0..3] \\cup [fam : {"6"}, a : {0, 2, 5, 7}, len : 0..3]' if big else
                     '[fam : {"4"}, a : {0, 2, 5, 7}, len : 0..3] \\cup [fam : {"6"}, a : {2, 5}, len : {0, 2, 3}]')))
     return runs, sizes
 
 
 def run_tlc(name, spec, timeout):
     cfg = {"MCDomainSet": "MCDomainSet.cfg", "MCPortSet": "MCPortSet.cfg", "MCPrefixSet": "MCPrefixSet.cfg"}[spec["module"]]
+    # development aid (mutation experiments, seed sweeps): TLC's output depends on the specs and constants only,
+    # so it can be kept between runs when VERIF_TLC_CACHE names a directory.  Never set by the registered commands.
+    cache = os.environ.get("VERIF_TLC_CACHE")
+    path = None
+    if cache:
+        import pickle
+        h = hashlib.sha1(json.dumps([spec["module"], spec["consts"], bool(spec.get("edges"))], sort_keys=True).encode())
+        for fn in sorted(os.listdir(SPEC)):
+            h.update(open(os.path.join(SPEC, fn), "rb").read())
+        path = os.path.join(cache, "%s-%s.pickle" % (name, h.hexdigest()[:16]))
+        if os.path.exists(path):
+            vlib.log("[tlc] %s: cached" % name)
+            return pickle.load(open(path, "rb"))
     t0 = time.time()
     r = vlib.tlc(SPEC, spec["module"], cfg, spec["consts"], workers=spec["workers"], timeout=timeout, edges=bool(spec.get("edges")),
                  keep_out=True, heap="6g")
     vlib.log("[tlc] %s: %d distinct, %d generated, depth %d, %.1fs%s" % (name, r.distinct, r.generated, r.depth, time.time() - t0,
                                                                       ", VIOLATED " + r.violation if r.violation else ""))
+    if path and not r.violation:
+        os.makedirs(cache, exist_ok=True)
+        pickle.dump(r, open(path + ".tmp", "wb"))
+        os.replace(path + ".tmp", path)
     return r
 
 
@@ -170,7 +189,7 @@ def replay_file(v, binary, work, doc, seed):
         inp["behaviours"] = [rp["behaviour"]]
     if "case" in rp:
         inp["params"]["cases"] = [rp["case"]]
-    for key in ("probes", "sizes", "table", "offset", "w", "mapsPerCase"):
+    for key in ("probes", "sizes", "table", "offset", "w", "mapsPerCase", "combos"):
         if key in rp:
             inp["params"][key] = rp[key]
     if test == "TestDomainCases":
@@ -208,6 +227,7 @@ def run(tier, seed, replay):
     def drive(what, test, inputs, timeout):
         outs = common.run_parallel(binary, test, inputs, timeout)
         agg = dict(behaviours=0, steps=0, distinct=0, evaluations=0)
+        vlib.log("[drive] %s: %d processes done" % (what, len(outs)))
         for res, out, rc in outs:
             res = common.absorb(v, res, out, rc, what)
             agg["behaviours"] += res["behaviours"]
@@ -233,7 +253,7 @@ def run(tier, seed, replay):
 
     def job(name):
         spec = runs[name]
-        r = run_tlc(name, spec, 3000 if big else 900)
+        r = run_tlc(name, spec, 3000 if big else 1500)
         info = dict(distinct=r.distinct, generated=r.generated, depth=r.depth, violated=r.violation)
         tlc_cov[name] = info
         if r.violation:
@@ -256,7 +276,7 @@ def run(tier, seed, replay):
                         distinct.add(hashlib.sha1(json.dumps(c["ref"], sort_keys=True).encode()).hexdigest())
                 n = len(cases)
                 agg = drive(name, "TestDomainCases",
-                            chunk_cases(cases, 16, probes=spec["probes"], table=table, sizes=sizes,
+                            chunk_cases(cases, 16, probes=spec["probes"], table=table, sizes=sizes, combos=3 if big else 1,
                                         fileEvery=max(1, n // (4000 if big else 600)), conv=conv, convEvery=max(1, n // (600 if big else 120))),
                             2400 if big else 600)
                 info["driver_cases"] = agg
@@ -293,7 +313,9 @@ def run(tier, seed, replay):
             info["driver"] = agg
         return name, r, agg
 
-    order = ["dom_suffix", "port_small", "port_cases", "dom_text", "dom_mixed", "dom_conv", "port_graph", "prefix"]
+    cpu0 = os.times()
+    order = [n for n in ("dom_suffix", "dom_suffix4", "port_small", "port_cases", "dom_text", "dom_mixed", "dom_conv", "port_graph", "prefix")
+             if n in runs]
     with ThreadPoolExecutor(max_workers=len(order)) as ex:
         futs = [ex.submit(job, n) for n in order]
         results = [f.result() for f in futs]
@@ -305,6 +327,8 @@ def run(tier, seed, replay):
             totals["behaviours"] += agg["behaviours"]
             totals["steps"] += agg["steps"]
 
+    cpu1 = os.times()
+    v.coverage["cpu_s"] = round(cpu1.children_user + cpu1.children_system - cpu0.children_user - cpu0.children_system, 1)
     v.coverage.update(
         evaluations=totals["evaluations"], distinct_nontrivial=len(distinct),
         rule="cases are the distinct states TLC reaches in specs/Sets (rule sets over {a,b,.} reached by every insertion order; "
